@@ -324,7 +324,14 @@ impl<'t, D: Distance> Reader<'t, D> {
                     }
                 }
                 Node::SplitPlaneNormal(SplitPlaneNormal { normal, left, right }) => {
-                    let margin = D::margin_no_header(&normal, &query_leaf.vector);
+                    // A zeroed normal marks a random split (see `Writer::make_tree_in_file`): the items
+                    // below it were not placed according to any plane, so it must not favor a side.
+                    // With the binary quantized codec a zeroed normal would otherwise read as "all -1".
+                    let margin = if normal.is_zero() {
+                        0.0
+                    } else {
+                        D::margin_no_header(&normal, &query_leaf.vector)
+                    };
                     queue.push((OrderedFloat(D::pq_distance(dist, margin, Side::Left)), left));
                     queue.push((OrderedFloat(D::pq_distance(dist, margin, Side::Right)), right));
                 }
